@@ -116,6 +116,7 @@ func (e *Engine) invokeMethod(fr *frame, al IfaceAlt, m *types.Func, args []Valu
 }
 
 func (e *Engine) invokeFn(fr *frame, fn *ssa.Function, args []Value, binds []Value, g *Term, pos token.Pos) Value {
+	e.curG = g
 	name := fn.String()
 	key := fnKey(fn)
 	// package initialisers
@@ -191,7 +192,11 @@ func (e *Engine) newNondet(tag, kind string, w int, s Sort, n int) *Term {
 	e.nondetCount[tag] = k + 1
 	name := fmt.Sprintf("nd.%s.%d", tag, k)
 	t := Var(name, s)
-	e.nondets = append(e.nondets, &NondetVar{Tag: tag, Name: name, Kind: kind, W: w, T: t, Len: n})
+	gg := e.curG
+	if gg == nil {
+		gg = tTrue
+	}
+	e.nondets = append(e.nondets, &NondetVar{G: gg, Tag: tag, Name: name, Kind: kind, W: w, T: t, Len: n})
 	return t
 }
 
@@ -270,6 +275,12 @@ func (e *Engine) harnessPrimitive(fr *frame, fn *ssa.Function, args []Value, g *
 			}
 		}
 		return Apply(fmt.Sprintf("uf.%s.%d", tag, len(ts)), BV(64), ts...), true
+	case "vNow":
+		return e.timeNow(g), true
+	case "vSince":
+		return e.timeSub(e.timeNow(g), args[0]), true
+	case "vPeek":
+		return tFalse, true
 	case "vKnown":
 		id := constStrArg(args[0])
 		for _, k := range e.spec.KnownOpen {
